@@ -19,8 +19,10 @@ What each oracle field becomes (Python expression it stands for → closed defin
   `Validate.basicP env true` on the parse with the `{ref}` tags removed (`dropList`, `HedGroup.remove`)
 * `SidecarV.Oracle.full`  `run_full_string_checks(HedString(s, schema, def_dict))` → `Validate.fullPhase` on the tree as constructed
 * `SidecarV.Oracle.defCount` `find_tags({"Definition"}, recursive=True)` → tags of the tree whose short base tag folds to it
-* `SidecarV.Oracle.repNa`, `defIssues` NOT closed: sidecars that declare definitions, or that splice `n/a` into a reference,
-  are outside the closed fragment (`sidecarUnmodelled`)
+* `SidecarV.Oracle.isDefExpand` the tag's short base tag is `Def-expand` → `isDefExpandText` (the `#` of an entry are counted by
+  `SidecarV.treeHash` on the tree after `remove_refs` / `shrink_defs`, as `_validate_pound_sign_count` does)
+* `SidecarV.Oracle.defIssues` NOT closed: sidecars that declare definitions are outside the closed fragment
+  (`sidecarUnmodelled`); the `n/a` splice is now `Assemble.replaceRef` inside `SidecarV` (still excluded by the driver)
 -/
 import HedVerif.Model.Validate
 import HedVerif.Model.Tabular
@@ -168,22 +170,21 @@ def entryBasic (env : Env) (s : Str) : List Validate.Issue := basicP env true s 
 def defCount (env : Env) (s : Str) : Nat :=
   ((tagsList (parseNoRefs env s).root0).filter fun t => fold (shortBase env t) == fold definitionKey).length
 
-/-- `_validate_pound_sign_count` counts `#` in `str()` of the tree (after `remove_refs`, `remove_definitions`,
-`shrink_defs`); `SidecarV.poundCount` counts them in the entry text.  The two differ for an entry whose tree does not print
-all its `#` (unbalanced parentheses: empty tree) or that holds a Def-expand group with a placeholder: outside the fragment. -/
-def poundTreeDiffers (env : Env) (s : Str) : Bool :=
-  let r0 := (parseNoRefs env s).root0
-  SidecarV.countHash s != SidecarV.countHash (strList env r0) ||
-    (s.contains '#' && (tagsList r0).any fun t => shortBase env t == defExpandKey)
-
 def pair (i : Validate.Issue) : Str × Nat := (i.code, i.sev)
+
+/-- `tag.short_base_tag.casefold() == "def-expand"` for the tag with this source text (resolution depends on the tag's own
+text only): what `shrink_defs` looks for when `SidecarV.treeHash` counts the `#` on the tree -/
+def isDefExpandText (env : Env) (tt : Str) : Bool :=
+  match resolveList env tt (Tree.construct tt) with
+  | [.tag t] => fold (shortBase env t) == fold defExpandKey
+  | _ => false
 
 def sidecarOracle (env : Env) : SidecarV.Oracle where
   basic := fun s => (entryBasic env s).map pair
   full := fun s => (rawFull env s).map pair
   defCount := defCount env
-  repNa := fun t _ => t
   defIssues := []
+  isDefExpand := isDefExpandText env
 
 def memoSidecar (o : SidecarV.Oracle) (texts : List Str) : SidecarV.Oracle :=
   let b := tabulate o.basic texts
